@@ -10,7 +10,7 @@ PROP_ID = "C05"
 LEVEL = "exploration"
 RULE = (
     "cases = (ordered tree shape, start node, node class); every shape up to the stated size is enumerated with every "
-    "start node (quick <= 8 nodes, thorough <= 10), plus Hypothesis-generated shapes up to 60 nodes (uniform/chain/star "
+    "start node (quick <= 8 nodes, thorough <= 11), plus Hypothesis-generated shapes up to 60 nodes (uniform/chain/star "
     "biased parent arrays). Non-trivial = the start node's subtree has >= 4 nodes and height >= 2; enumerated cases are "
     "distinct by construction, generated ones are de-duplicated by a 64-bit hash of the case."
 )
@@ -115,8 +115,8 @@ def random_cases(draw):
 
 def plan(tier, seed):
     nshards = 16
-    max_nodes = 8 if tier == "quick" else 10
-    examples = 300 if tier == "quick" else 1500
+    max_nodes = 8 if tier == "quick" else 11
+    examples = 300 if tier == "quick" else 5000
     tasks = [{"engine": "enum", "max_nodes": max_nodes, "index": i, "count": nshards} for i in range(nshards)]
     tasks += [{"engine": "hyp", "examples": examples, "seed": seed * 1000 + i} for i in range(nshards)]
     return tasks
@@ -135,5 +135,5 @@ def exhaustive(tier):
 
 def evidence_extra(total, tier):
     return {
-        "exhaustive_subdomain": "all ordered tree shapes with <= %d nodes x every start node x {Node, SlotLM}" % (8 if tier == "quick" else 10),
+        "exhaustive_subdomain": "all ordered tree shapes with <= %d nodes x every start node x {Node, SlotLM}" % (8 if tier == "quick" else 11),
     }
